@@ -365,7 +365,7 @@ func Run(prog *ssa.Program, entry *ssa.Function, cfg Config, models *modelIndex)
 			}
 		}
 		if !v.Reproduced {
-			fmt.Fprintf(os.Stderr, "gosmx: counterexample for %q did not reproduce concretely (failed: %v, incomplete: %v)\n", v.Label, rp.failed, rw.incompl)
+			fmt.Fprintf(os.Stderr, "gosmx: counterexample for %q did not reproduce concretely (failed: %v, incomplete: %v; model from %s: %v choices %v)\n", v.Label, rp.failed, rw.incompl, v.Solver, v.Vars, v.Choices)
 		}
 	}
 	res.Violations = kept
